@@ -27,7 +27,7 @@ pub fn run(seed: u64, count: u64, out: &mut dyn Write, stats: &mut Stats) {
     for h in 0..count {
         let mut deps = mock_dependencies();
         let mut env = mock_env();
-        env.block.time = Timestamp::from_seconds(1_000_000 + r.below(1000));
+        env.block.time = Timestamp::from_nanos((1_000_000 + r.below(1000)) * 1_000_000_000 + crate::subsec(h));
         margined_pricefeed::contract::instantiate(
             deps.as_mut(),
             env.clone(),
@@ -43,9 +43,9 @@ pub fn run(seed: u64, count: u64, out: &mut dyn Write, stats: &mut Stats) {
         for k in 0..nops {
             match r.below(6) {
                 0 | 1 => {}
-                2 | 3 => env.block.time = env.block.time.plus_seconds(r.range(1, 60)),
-                4 => env.block.time = env.block.time.plus_seconds(r.range(60, 2000)),
-                _ => env.block.time = env.block.time.plus_seconds(r.range(2000, 100000)),
+                2 | 3 => env.block.time = Timestamp::from_nanos((env.block.time.seconds() + r.range(1, 60)) * 1_000_000_000 + crate::subsec(h * 131 + k)),
+                4 => env.block.time = Timestamp::from_nanos((env.block.time.seconds() + r.range(60, 2000)) * 1_000_000_000 + crate::subsec(h * 131 + k)),
+                _ => env.block.time = Timestamp::from_nanos((env.block.time.seconds() + r.range(2000, 100000)) * 1_000_000_000 + crate::subsec(h * 131 + k)),
             }
             let now = env.block.time.seconds();
             let key = 1 + r.below(2) as usize;
